@@ -2,6 +2,7 @@ import Tsg.Driver.Ops
 import Tsg.Driver.Fn
 import Tsg.Driver.GraphIO
 import Tsg.Driver.Exec
+import Tsg.Driver.PErr
 
 open Driver
 
@@ -18,6 +19,9 @@ def handle (st : DState) (req : Sexp) : DState × Sexp :=
     | none => (st, .list [.atom "bad-request"])
   | .list (.atom "fn" :: rest) => (st, handleFn st.tree rest)
   | .list (.atom "exec" :: rest) => (st, handleExec st.tree rest)
+  | .list [.atom "perrors"] => (st, handlePErrors st.tree)
+  | .list (.atom "perror-display" :: rest) => (st, handlePErrorDisplay st.tree rest)
+  | .list (.atom "excerpt" :: rest) => (st, handleExcerpt rest)
   | .list (.atom "json" :: rest) => (st, handleJson rest)
   | .list (.atom "pretty" :: rest) => (st, handlePretty st.tree rest)
   | .list [.atom "ping"] => (st, .atom "pong")
